@@ -38,6 +38,9 @@ fn wmax(p: &HashMap<String, String>, d: u64) -> u64 { p.get("wmax").and_then(|s|
 fn c02(r: &mut Rng, i: u64, p: &HashMap<String, String>) -> Vec<Value> {
     let mut f = if r.chance(1, 2) { Feat::all() } else { Feat::notables() };
     f.ids = r.chance(1, 4);
+    f.stray = r.chance(1, 3);
+    f.sup = r.chance(1, 3);
+    f.odd_href = r.chance(1, 2);
     let mut g = G::new(r, f);
     let body = g.flow(0);
     let html = doc_html(&body);
@@ -53,6 +56,8 @@ fn c02(r: &mut Rng, i: u64, p: &HashMap<String, String>) -> Vec<Value> {
 fn c03(r: &mut Rng, i: u64, p: &HashMap<String, String>) -> Vec<Value> {
     let mut f = if r.chance(1, 2) { Feat::all() } else { Feat::notables() };
     f.ids = r.chance(1, 4);
+    f.stray = r.chance(1, 2);
+    f.sup = r.chance(1, 3);
     let mut g = G::new(r, f);
     let mut body = g.flow(0);
     let pressure = r.chance(1, 8);
@@ -74,6 +79,7 @@ fn c04(r: &mut Rng, i: u64, _p: &HashMap<String, String>) -> Vec<Value> {
     let nwords = if r.chance(1, 3) { r.range(1, 60) } else { r.range(1, 8) };
     let alpha: Vec<char> = "abcdefghijklmnopqrstuvwxyz".chars().collect();
     // a flat list of pieces: word characters and separators, then cut into inline structure
+    // (some words contain control characters, which have no width and are dropped)
     let mut pieces: Vec<String> = Vec::new();
     if r.chance(1, 4) { pieces.push(" ".into()); }
     for k in 0..nwords {
@@ -84,6 +90,7 @@ fn c04(r: &mut Rng, i: u64, _p: &HashMap<String, String>) -> Vec<Value> {
         while wsum < len {
             match r.below(12) { 0 => { wd.push(*r.pick(&['一', '語', '🎉'])); wsum += 2; }
                                 1 if !wd.is_empty() => { wd.push('\u{301}'); }
+                                2 if r.chance(1, 6) => { wd.push(*r.pick(&['\u{1}', '\u{1b}', '\u{7f}'])); }
                                 _ => { wd.push(*r.pick(&alpha)); wsum += 1; } }
         }
         // split the word itself across nodes sometimes
@@ -187,6 +194,8 @@ fn any_opts(r: &mut Rng) -> Vec<Value> {
 fn c11(r: &mut Rng, i: u64, p: &HashMap<String, String>) -> Vec<Value> {
     let mut f = if r.chance(1, 2) { Feat::all() } else { Feat::notables() };
     f.ids = r.chance(1, 5);
+    f.odd_href = r.chance(1, 2);
+    f.sup = r.chance(1, 4);
     let mut g = G::new(r, f);
     let body = g.flow(0);
     let html = doc_html(&body);
@@ -339,6 +348,8 @@ fn strip_ids(n: &N) -> N {
 fn c14(r: &mut Rng, i: u64, p: &HashMap<String, String>) -> Vec<Value> {
     let mut f = if r.chance(1, 4) { Feat::all() } else { Feat::notables() };
     f.ids = true;
+    f.sup = r.chance(1, 4);
+    f.stray = r.chance(1, 3);
     let mut g = G::new(r, f);
     let body = g.flow(0);
     if g.ids.is_empty() { return vec![]; }
@@ -360,6 +371,7 @@ fn c09(r: &mut Rng, i: u64, p: &HashMap<String, String>) -> Vec<Value> {
     f.ids = r.chance(1, 6);
     f.sup = r.chance(1, 3);
     f.linky = r.chance(1, 3);
+    f.stray = r.chance(1, 3);
     let mut g = G::new(r, f);
     let body = g.flow(0);
     let html = doc_html(&body);
@@ -376,6 +388,8 @@ fn c08(r: &mut Rng, i: u64, p: &HashMap<String, String>) -> Vec<Value> {
     let mut f = if r.chance(1, 3) { Feat::all() } else { Feat::notables() };
     f.linky = true;
     f.ids = r.chance(1, 8);
+    f.odd_href = r.chance(1, 2);
+    f.sup = r.chance(1, 4);
     let mut g = G::new(r, f);
     let body = g.flow(0);
     let html = doc_html(&body);
@@ -463,10 +477,13 @@ fn regular_table(g: &mut G, nrows: usize, ncols: usize, spans: bool, nest: bool,
                 }
                 if class == 7 { kids.push(N::T(t.clone())); kids.push(N::el("br", vec![])); let extra: String = if uniq { count += 2; format!("{}{}", ch, ch) } else { g.token() }; kids.push(N::T(extra)); }
                 else if class == 6 && !uniq { kids.push(N::T(format!("{}一語", t))); }
+                // one unbroken word of wide characters with inline markup in the middle of it
+                else if class == 5 && !uniq && g.r.chance(1, 2) { kids.push(N::T(format!("{}東京都千代田区", t))); kids.push(N::el(*g.r.pick(&["em", "strong", "code"]), vec![N::T("abc".into())])); if g.r.chance(1, 2) { kids.push(N::T("語".into())); } }
                 else { kids.push(N::T(t)); }
             }
             if uniq && top { cells.push(json!({"r": ri + 1, "c0": c0 + 1, "c1": c0 + s, "code": ch as u32, "n": count})); *next += 1; }
             let mut td = N::el(if g.r.chance(1, 6) { "th" } else { "td" }, kids);
+            if s > 1 && g.r.chance(1, 3) { td.add_attr(*g.r.pick(&["align", "class", "scope"]), "c".into()); }   // colspan need not come first
             if s > 1 { td.add_attr("colspan", format!("{}", s)); }
             tds.push(td); c0 += s;
         }
@@ -548,6 +565,9 @@ fn c10(r: &mut Rng, i: u64, p: &HashMap<String, String>) -> Vec<Value> {
     for _ in 0..ndocs {
         let mut f = if r.chance(1, 2) { Feat::all() } else { Feat::notables() };
         f.ids = r.chance(1, 4);
+        f.sup = r.chance(1, 2);
+        f.stray = r.chance(1, 3);
+        f.odd_href = r.chance(1, 3);
         let mut g = G::new(r, f);
         docs.push(doc_html(&g.flow(0)));
     }
